@@ -196,3 +196,12 @@ def retry_scenarios(ctx, uj):
                 if outs["dry"] != outs["real"]:
                     ctx.fail("dry-run-retry", "with retry=%r and a modified-time query that fails %d time(s) first, the dry run %s but the real run %s"
                              % (retry, fails, outs["dry"], outs["real"]), {"retry": retry, "transient_failures": fails, "store": which})
+
+
+_run_before_api = run
+
+
+def run(ctx):
+    _run_before_api(ctx)
+    import api_corr
+    api_corr.run_api_corr(ctx)
